@@ -82,6 +82,17 @@ func (vc *VC) specBool(env *SpecEnv, e ast.Expr) *Term {
 	return v.C[0]
 }
 
+// specAssumable evaluates a clause that is going to be ASSUMED: a clause with a spec error contributes nothing
+// (the error itself fails the check), so that a broken contract can never assume false.
+func (vc *VC) specAssumable(env *SpecEnv, e ast.Expr) *Term {
+	env.failed = false
+	t := vc.specBool(env, e)
+	if env.failed {
+		return True
+	}
+	return t
+}
+
 func (vc *VC) specInt(env *SpecEnv, e ast.Expr) *Term {
 	v := env.eval(e)
 	if len(v.C) != 1 || v.C[0].Sort != SInt {
